@@ -80,10 +80,11 @@ def run(ctx):
     only = [t for t in os.environ.get("C07_TARGETS", "").split(",") if t]
 
     # 1. MC: the design statements hold for the reference design and each deviation is caught
-    mcc = {"NCells": 6 if thorough else 5, "NVals": 2}
+    mcc = {"NCells": 5 if thorough else 4, "NVals": 2}
     negs = (("IsolationNegStoreIn.cfg", "StoreIsolated"), ("IsolationNegInPlace.cfg", "HandedOutStable"),
             ("IsolationNegReadEdits.cfg", "ReadOnlyFrame"), ("IsolationNegFirstWrite.cfg", "StoreIsolated"),
-            ("IsolationNegHookEditsOld.cfg", "HandedOutStable"), ("IsolationNegLendsOld.cfg", "HandedOutStable"))
+            ("IsolationNegHookEditsOld.cfg", "HandedOutStable"), ("IsolationNegLendsOld.cfg", "HandedOutStable"),
+            ("IsolationNegMergeFiltersSrc.cfg", "HandedOutStable"))
     small = {"NCells": 4, "NVals": 2}
     jobs = [("mc", lambda: ctx.mc("Isolation", "IsolationMC.cfg", consts=mcc, workers=4, timeout=1500)),
             # the first-write deviation cannot be reached from constructions that already hold a value: the walks
@@ -99,7 +100,9 @@ def run(ctx):
     ctx.cov["design_variants_caught"] = ["StoreIn->StoreIsolated", "InPlace->HandedOutStable", "ReadEdits->ReadOnlyFrame",
                                          "FirstWriteKeeps(from an object holding nothing)->StoreIsolated",
                                          "HookEditsOld(interceptor/callback writes into the old value)->HandedOutStable",
-                                         "LendsOld(the caller's message is left sharing memory with the old value)->HandedOutStable"]
+                                         "LendsOld(the caller's message is left sharing memory with the old value)->HandedOutStable",
+                                         "MergeFiltersSrc(a masked write cuts down the written message, which was read "
+                                         "from this or another resource)->HandedOutStable"]
 
     phase("mc")
     # 2. Gen: walks for a generic object
